@@ -9,6 +9,7 @@ import (
 	"fmt"
 	"html"
 	"io"
+	"math"
 	"reflect"
 	"sort"
 	"strconv"
@@ -515,9 +516,9 @@ func showInJS(env *env, out io.Writer, value any) error {
 	case reflect.Uint, reflect.Uint8, reflect.Uint16, reflect.Uint32, reflect.Uint64, reflect.Uintptr:
 		s = strconv.FormatUint(v.Uint(), 10)
 	case reflect.Float32:
-		s = strconv.FormatFloat(v.Float(), 'f', -1, 32)
+		s = showFloat(v.Float(), 32, false)
 	case reflect.Float64:
-		s = strconv.FormatFloat(v.Float(), 'f', -1, 64)
+		s = showFloat(v.Float(), 64, false)
 	case reflect.String:
 		_, err := w.WriteString("\"")
 		if err == nil {
@@ -718,9 +719,9 @@ func showInJSON(env *env, out io.Writer, value any) error {
 	case reflect.Uint, reflect.Uint8, reflect.Uint16, reflect.Uint32, reflect.Uint64, reflect.Uintptr:
 		s = strconv.FormatUint(v.Uint(), 10)
 	case reflect.Float32:
-		s = strconv.FormatFloat(v.Float(), 'f', -1, 32)
+		s = showFloat(v.Float(), 32, true)
 	case reflect.Float64:
-		s = strconv.FormatFloat(v.Float(), 'f', -1, 64)
+		s = showFloat(v.Float(), 64, true)
 	case reflect.String:
 		_, err := w.WriteString("\"")
 		if err == nil {
@@ -952,6 +953,24 @@ func showInMarkdownCodeBlock(env *env, out io.Writer, value any, spaces bool) er
 	}
 	w := newStringWriter(out)
 	return markdownCodeBlockEscape(w, s, spaces)
+}
+
+// showFloat returns the JavaScript or JSON representation of f. In JavaScript
+// NaN and the infinities are NaN, Infinity and -Infinity. JSON cannot
+// represent them, so they are shown as null, as JSON.stringify does.
+func showFloat(f float64, bitSize int, json bool) string {
+	if math.IsNaN(f) || math.IsInf(f, 0) {
+		switch {
+		case json:
+			return "null"
+		case math.IsNaN(f):
+			return "NaN"
+		case f < 0:
+			return "-Infinity"
+		}
+		return "Infinity"
+	}
+	return strconv.FormatFloat(f, 'f', -1, bitSize)
 }
 
 // showTimeInJS shows a value of type time.Time in a JavaScript context.
